@@ -68,13 +68,20 @@ type c14case struct {
 	forked  bool
 	s, l    int
 	batch   int
+	// fmis: the filter header the target holds at its filter tip is not
+	// the file's (block headers agree): a mismatch with existing data that
+	// only a comparison of the filter headers themselves can see
+	fmis    bool
+	// cancelled: Import is called with a context that is already cancelled
+	// (shutdown during start-up); nothing unvalidated may reach the stores
+	cancelled bool
 	corrupt string // none link pow bits magic truncated count fstart
 	pos     int    // index into the file for link/pow/bits
 }
 
 func (c c14case) String() string {
-	return fmt.Sprintf("target(block tip %d, filter lag %d, forked=%v) file(start %d, len %d) batch=%d corrupt=%s@%d",
-		c.bt, c.lag, c.forked, c.s, c.l, c.batch, c.corrupt, c.pos)
+	return fmt.Sprintf("target(block tip %d, filter lag %d, forked=%v, filter tip differs=%v) file(start %d, len %d) batch=%d corrupt=%s@%d cancelled=%v",
+		c.bt, c.lag, c.forked, c.fmis, c.s, c.l, c.batch, c.corrupt, c.pos, c.cancelled)
 }
 
 func writeImportFile(path string, magic wire.BitcoinNet, typ headerfs.HeaderType, start uint32, body []byte) error {
@@ -181,6 +188,9 @@ func enumerateCase(c *verifeng.Chooser, tier string) c14case {
 	if cs.bt >= 3 {
 		cs.forked = c.ChooseFree(2, "target-forked") == 1
 	}
+	if !cs.forked && cs.bt-cs.lag >= 1 {
+		cs.fmis = c.ChooseFree(2, "target-filter-tip-differs") == 1
+	}
 	cs.s = c.ChooseFree(5, "file-start")
 	maxL := c14Len - cs.s
 	if maxL > 4 {
@@ -192,6 +202,9 @@ func enumerateCase(c *verifeng.Chooser, tier string) c14case {
 	cs.corrupt = kinds[c.ChooseFree(len(kinds), "corrupt")]
 	if cs.corrupt == "link" || cs.corrupt == "pow" || cs.corrupt == "bits" {
 		cs.pos = c.ChooseFree(cs.l, "corrupt-pos")
+	}
+	if cs.corrupt == "none" || cs.corrupt == "link" || cs.corrupt == "bits" {
+		cs.cancelled = c.ChooseFree(2, "context-cancelled") == 1
 	}
 	return cs
 }
@@ -234,6 +247,10 @@ func c14Body(tier string, faults bool) func(c *verifeng.Chooser) {
 			}
 		}
 		ft := cs.bt - cs.lag
+		if cs.fmis {
+			tfh = append([]chainhash.Hash(nil), tfh...)
+			tfh[ft][7] ^= 0x5a
+		}
 		for h := 1; h <= ft; h++ {
 			if err := fs.WriteHeaders(headerfs.FilterHeader{HeaderHash: target[h].Hash, FilterHash: tfh[h], Height: uint32(h)}); err != nil {
 				panic(verifeng.InfraError{Msg: "setup: " + err.Error()})
@@ -296,6 +313,7 @@ func c14Body(tier string, faults bool) func(c *verifeng.Chooser) {
 			panic(verifeng.InfraError{Msg: err.Error()})
 		}
 
+		secondRun := false
 		doImport := func() error {
 			imp, err := chainimport.NewHeadersImport(&chainimport.ImportOptions{
 				TargetChainParams:       *f.p,
@@ -308,7 +326,17 @@ func c14Body(tier string, faults bool) func(c *verifeng.Chooser) {
 			if err != nil {
 				return err
 			}
-			_, err = imp.Import(context.Background())
+			ctx := context.Background()
+			if cs.cancelled && !secondRun {
+				cctx, cancel := context.WithCancel(ctx)
+				cancel()
+				ctx = cctx
+			}
+			_, err = imp.Import(ctx)
+			if cs.cancelled && !secondRun && err == nil {
+				// whatever a cancelled import did, it may not claim
+				// more than it did; success is judged like any other
+			}
 			return err
 		}
 
@@ -364,6 +392,10 @@ func c14Body(tier string, faults bool) func(c *verifeng.Chooser) {
 				if bad := validChain(f, st); bad != "" {
 					return c.Fail("success-invalid-chain", sig+":invalid-chain-imported",
 						"%s reported success but %s; case %v", phase, bad, cs)
+				}
+				if cs.fmis && cs.s <= ft && e >= ft {
+					return c.Fail("success-on-mismatch", sig+":filter-header-mismatch-accepted",
+						"%s reported success although the file's filter header at height %d differs from the one the target store holds there (mismatch with existing data); case %v", phase, ft, cs)
 				}
 				switch cs.corrupt {
 				case "magic", "truncated", "count", "fstart":
@@ -435,6 +467,7 @@ func c14Body(tier string, faults bool) func(c *verifeng.Chooser) {
 		// import.
 		env.Faults = false
 		before, _ := readState(bs, fs)
+		secondRun = true
 		err2 := doImport()
 		c.Step("second Import -> err=%v", err2 != nil)
 		if impErr == nil {
